@@ -9,3 +9,5 @@ def run(ctx):
     vlib.proof_step(ctx)
     res = p2common.p2_run(ctx)
     p2common.p2_judge(ctx, res, PREFIXES, "Model/Proto2.v <-> the real v2 reconcilers (steps exercising C07)")
+    from props import c09_extra
+    c09_extra.run_restarts(ctx)
